@@ -93,6 +93,11 @@ def configs(rng, thorough):
         else:
             prog, _ = gen.random_flat(rng, n_nodes=(2, 5), cyclic=0.5, gate=0.5, multi_out=0.2, defaults=0.25, bound=0.0, emit=0.15)
             kind = "cyclic"
+        if rng.random() < 0.2:
+            ed = gen.inferred_edges(prog)      # topology declared with exactly the edges inference would create
+            if ed:
+                prog["edges"] = ed
+                kind += "+declared-edges"
         try:
             rs, g = specs.real_spec(prog)
         except Exception:  # noqa: BLE001
